@@ -552,21 +552,6 @@ class EventBus:
             if current_event is not None and current_event.event_id != event.event_id:
                 event.event_parent_id = current_event.event_id
 
-        # Add this EventBus to the event_path if not already there
-        if self.name not in event.event_path:
-            # preserve identity of the original object instead of creating a new one, so that the original object remains awaitable to get the result
-            # NOT: event = event.model_copy(update={'event_path': event.event_path + [self.name]})
-            event.event_path.append(self.name)
-        else:
-            logger.debug(
-                f'⚠️ {self}.dispatch({event.event_type}) - Bus already in path, not adding again. Path: {event.event_path}'
-            )
-
-        assert event.event_path, 'Missing event.event_path: list[str] (with at least the origin function name recorded in it)'
-        assert all(entry.isidentifier() for entry in event.event_path), (
-            f'Event.event_path must be a list of valid EventBus names, got: {event.event_path}'
-        )
-
         # Check hard limit on total pending events (queue + in-progress)
         # Only enforce if we have memory limits set
         if self.max_history_size is not None:
@@ -590,6 +575,20 @@ class EventBus:
                 self.event_queue.put_nowait(event)
                 # Only add to history after successfully queuing
                 self.event_history[event.event_id] = event
+
+                # Add this EventBus to the event_path if not already there (only once the event is accepted: a bus that
+                # rejected the event has not been visited, and must not look visited to the forwarding loop check)
+                if self.name not in event.event_path:
+                    # preserve identity of the original object instead of creating a new one, so that the original object remains awaitable to get the result
+                    # NOT: event = event.model_copy(update={'event_path': event.event_path + [self.name]})
+                    event.event_path.append(self.name)
+                else:
+                    logger.debug(
+                        f'⚠️ {self}.dispatch({event.event_type}) - Bus already in path, not adding again. Path: {event.event_path}'
+                    )
+                assert all(entry.isidentifier() for entry in event.event_path), (
+                    f'Event.event_path must be a list of valid EventBus names, got: {event.event_path}'
+                )
                 event._event_pending_bus_count += 1  # pyright: ignore[reportPrivateUsage]
                 # Only record it as a child of the running handler once it is accepted: a rejected dispatch must leave
                 # no trace, or the would-be parent waits forever for a child that will never be processed
